@@ -444,12 +444,23 @@ def check_case(case) -> Obs:
                 if len(new) != len(want):
                     obs.bad("C09/record-count", f"{method} appended {new}")
                     return
-                for rec_text, (typ, name, pos) in zip(new, want):
+                parsed = []
+                for rec_text in new:
                     try:
-                        f = gwl.parse_record(rec_text).f
+                        parsed.append((rec_text, gwl.parse_record(rec_text).f))
                     except gwl.GwlError as e:
                         obs.bad("C09/malformed", f"{method}(kwargs {kw}) -> {rec_text!r}: {e}")
                         return
+                # pair every expected (type, rack, position) with its record; the order within one call is not prescribed
+                ordered = []
+                for typ, name, pos in want:
+                    hit = next((pr for pr in parsed if pr[1]["type"] == typ and pr[1]["position"] == str(pos)), None)
+                    if hit is None:
+                        obs.bad("C09/field", f"{method}: no {typ} record for position {pos} among {new}")
+                        return
+                    parsed.remove(hit)
+                    ordered.append(hit)
+                for (rec_text, f), (typ, name, pos) in zip(ordered, want):
                     exp = {"type": typ, "rack_label": name, "position": str(pos), "rack_id": args["rack_id"], "rack_type": args["rack_type"], "tube_id": args["tube_id"], "liquid_class": args["liquid_class"], "forced_rack_type": args["forced_rack_type"], "tip_type": ""}
                     for k_, v_ in exp.items():
                         if f[k_] != v_:
